@@ -21,11 +21,16 @@ def _ec(i):
     return d
 
 
+# lists of highlight ranges owned by "the application" and passed to many values (C19: the library may
+# not mutate what callers share); deliberately unsorted
+SHARED_HIGHLIGHTS = [[(12, 19), (0, 5)], [(20, 24), (8, 11), (0, 3), (13, 17)], [(6, 9), (0, 4), (11, 15)]]
+
+
 def gen_call(rng, tok, cid='a', kinds=None, invalid_p=0.1, version=None):
     """One call descriptor (a JSON-able dict)."""
     kinds = kinds or ['parse_message', 'parse_message', 'parse_message', 'parse_segment', 'parse_segment',
                       'parse_field', 'factory', 'build', 'build', 'parse_component', 'field_override', 'field_dt',
-                      'segment_build', 'component_switch', 'group_build']
+                      'segment_build', 'component_switch', 'group_build', 'highlight_encode']
     kind = rng.choice(kinds)
     version = version or rng.choice(T.VERSIONS)
     level = rng.choice([STRICT, TOLERANT, TOLERANT])
@@ -79,6 +84,21 @@ def gen_call(rng, tok, cid='a', kinds=None, invalid_p=0.1, version=None):
             steps.append([f[0] if rng.random() < 0.7 else (f[1][3] or f[0]), v])
         return {'kind': kind, 'name': name, 'version': version, 'level': level, 'ec': eci, 'steps': steps,
                 'then': ['er7', 'names']}
+    if kind == 'highlight_encode':
+        # a textual value with highlight ranges, given as one of the *caller's* lists that all actors
+        # share (the library must treat its arguments as read-only), encoded inside a segment
+        words = [gen.valid_literal('ST', tok, rng)[:9] for _ in range(4)]
+        text = ' '.join(words)
+        cands = []
+        for seg, idx in (('PID', 23), ('NTE', 3), ('MSA', 3), ('PID', 2)):
+            fl = T.seg_fields(version, seg)
+            if len(fl) >= idx and fl[idx - 1][1] is not None and fl[idx - 1][1][2] in ('ST', 'FT', 'TX'):
+                cands.append((seg, '%s_%d' % (seg, idx), fl[idx - 1][1][2]))
+        if not cands:
+            return gen_call(rng, tok, cid, ['factory'], invalid_p)
+        seg, fname, dt = rng.choice(cands)
+        return {'kind': kind, 'version': version, 'level': level, 'dt': dt, 'seg': seg, 'field': fname,
+                'text': text, 'hl': rng.randrange(len(SHARED_HIGHLIGHTS)), 'times': rng.choice([1, 2])}
     if kind == 'group_build':
         # a Group built on its own (cheap: no MSH), filled with structure segments and Z segments
         gnames = sorted(T.groups(version))
@@ -303,6 +323,14 @@ def run_call(c, hook=None):
             if hook:
                 hook('alive', sg)
             return {'ok': True, 'steps': log, 'obs': _observe(sg, c['then'], ec)}
+        if kind == 'highlight_encode':
+            from hl7apy import load_library
+            from hl7apy.core import Segment
+            cls = load_library(c['version']).get_base_datatypes()[c['dt']]
+            sg = Segment(c['seg'], version=c['version'], validation_level=c['level'])
+            setattr(sg, c['field'], cls(c['text'], highlights=SHARED_HIGHLIGHTS[c['hl']], validation_level=c['level']))
+            out = [sg.to_er7(_ec(0)) for _ in range(c.get('times', 1))]
+            return {'ok': True, 'obs': {'er7': out, 'hl': list(SHARED_HIGHLIGHTS[c['hl']])}}
         if kind == 'group_build':
             from hl7apy.core import Group
             g = Group(c['name'], version=c['version'], validation_level=c['level'])
